@@ -439,6 +439,35 @@ def pack_task(t):
                     report("unsat", desc, v, mode, "constraints not satisfied")
                 if mode != "plain" and H.value_wire_mismatches(out):
                     report("value!=wire", desc, v, mode, "unpacked value differs from its wire")
+        # a field whose bits are partly secret and partly plain (hand-built bit strings): as soon as one bit is
+        # secret the range check applies - all kind patterns x all bit values
+        if desc.startswith("IntMod(") and not big and 2 <= int(desc[7:-1]) <= 7:
+            m = int(desc[7:-1])
+            bl_ = (m - 1).bit_length()
+            for kindpat in itertools.product((0, 1), repeat=bl_):
+                if not any(kindpat) or all(kindpat):
+                    continue
+                for val in range(2 ** bl_):
+                    for typed in (False, True):
+                        H.R.p = p
+                        H.reset(bitlength=8)
+                        st["executions"] += 1
+                        bl = [((H.boolean.PrivValBool if typed else H.rt.PrivVal)((val >> i) & 1) if kindpat[i] else (val >> i) & 1) for i in range(bl_)]
+                        try:
+                            out = mk(P).unpack(bl, 0)
+                            got = H.plain(out)
+                            if val >= m:
+                                report("mixed-bits-out-of-range-accepted", desc, val, "mixed", "bits %s (1 = secret position pattern %s) encode %d >= %d and were unpacked to %r"
+                                       % ([(val >> i) & 1 for i in range(bl_)], list(kindpat), val, m, got))
+                            elif got != val:
+                                report("round-trip-wrong", desc, val, "mixed", "unpacked %r" % (got,))
+                            if H.R.unsatisfied():
+                                report("unsat", desc, val, "mixed", "constraints not satisfied")
+                        except AssertionError:
+                            if val < m:
+                                report("round-trip-raises", desc, val, "mixed", "in-range mixed bits rejected")
+                        except Exception as ex:  # noqa: BLE001
+                            report("round-trip-raises", desc, val, "mixed", "%s: %s" % (type(ex).__name__, str(ex)[:80]))
         # out-of-range plain values are rejected (IntMod components)
         if desc.startswith("IntMod("):
             m = int(desc[7:-1])
